@@ -62,12 +62,12 @@ fn gevent() -> impl Strategy<Value = GEvent> {
 }
 
 fn strategy() -> impl Strategy<Value = Case> {
-    let fault = prop_oneof![6 => Just(None), 2 => prop::sample::select(vec![500u16, 503, 400, 404]).prop_map(|c| Some(PostFault::Status(c))), 1 => Just(Some(PostFault::Reset)), 1 => (1u8..30).prop_map(|d| Some(PostFault::Late(d)))];
+    let fault = prop_oneof![6 => Just(None), 2 => prop::sample::select(vec![500u16, 503, 400, 404, 429]).prop_map(|c| Some(PostFault::Status(c))), 1 => Just(Some(PostFault::Reset)), 1 => (1u8..30).prop_map(|d| Some(PostFault::Late(d)))];
     (prop::collection::vec(prop::collection::vec(gevent(), 0..14), 0..5), prop_oneof![
         6 => Just(vec![]),
         4 => prop::collection::vec(fault, 1..9),
         // a batch that is refused on all five attempts (it is given up), after 0-3 accepted POSTs
-        2 => (0usize..4, 5usize..8, prop::sample::select(vec![500u16, 503, 404])).prop_map(|(k, n, code)| {
+        2 => (0usize..4, 5usize..8, prop::sample::select(vec![500u16, 503, 404, 429, 408])).prop_map(|(k, n, code)| {
             let mut v: Vec<Option<PostFault>> = vec![None; k];
             v.extend(std::iter::repeat(Some(PostFault::Status(code))).take(n));
             v
